@@ -40,12 +40,12 @@ m("c05-udp-v6-len", "src/common/socks.rs", "                if body.len() < 18 {
 # ---- C09
 m("c09-swap-5-6", "milu/src/parser.rs", 'op_rule!(op_6, op_7, alt((tag("*"), tag("/"), tag("%"),)));\nop_rule!(op_5, op_6, alt((tag("+"), tag("-"))));', 'op_rule!(op_6, op_7, alt((tag("+"), tag("-"))));\nop_rule!(op_5, op_6, alt((tag("*"), tag("/"), tag("%"),)));', ["C09"])
 m("c09-ge-shadowed", "milu/src/parser.rs", 'alt((tag(">="), tag(">"), tag("<="), tag("<")))', 'alt((tag(">"), tag(">="), tag("<="), tag("<")))', ["C09"])
-m("c09-fold-right", "milu/src/parser.rs", "                    expr.into_iter().fold(p1, |p1, val| {\n                        let (op, p2) = val;\n                        parse2(op, p1, p2).into()\n                    })", "                    {\n                        let mut items: Vec<(Span, Value)> = expr;\n                        let mut acc: Option<Value> = None;\n                        let mut first = Some(p1);\n                        // right fold\n                        let mut ops = vec![];\n                        let mut vals = vec![first.take().unwrap()];\n                        for (o, v) in items.drain(..) { ops.push(o); vals.push(v); }\n                        let mut r = vals.pop().unwrap();\n                        while let Some(o) = ops.pop() { let l = vals.pop().unwrap(); r = parse2(o, l, r); }\n                        let _ = &mut acc;\n                        r\n                    }", ["C09"])
+m("c09-fold-right", "milu/src/parser.rs", "                let ret = expr.into_iter().try_fold(p1, |p1, val| {\n                    let (op, p2) = val;\n                    check_depth(i, parse2(op, p1, p2))\n                })?;\n                Ok((rest, ret))\n            }\n        });\n    };\n}\n", "                let ret = {\n                    let mut vals = vec![p1];\n                    let mut ops = vec![];\n                    for (o, v) in expr {\n                        ops.push(o);\n                        vals.push(v);\n                    }\n                    let mut r = vals.pop().unwrap();\n                    while let Some(o) = ops.pop() {\n                        let l = vals.pop().unwrap();\n                        r = check_depth(i, parse2(o, l, r))?;\n                    }\n                    r\n                };\n                Ok((rest, ret))\n            }\n        });\n    };\n}\n", ["C09"])
 m("c09-no-inline-comment", "milu/src/parser.rs", "recognize(many0(alt((multispace1, eol_comment, inline_comment))))(i)", "recognize(many0(alt((multispace1, eol_comment))))(i)", ["C09"])
 m("c09-xor-above-and", "milu/src/parser.rs", 'op_rule!(op_2, op_2_3, alt((tag("&&"), tag_no_case("and"))));\nop_rule!(op_1_5, op_2, alt((tag("^^"), tag_no_case("xor"))));', 'op_rule!(op_2, op_2_3, alt((tag("^^"), tag_no_case("xor"))));\nop_rule!(op_1_5, op_2, alt((tag("&&"), tag_no_case("and"))));', ["C09"])
 m("c09-and-case-sensitive", "milu/src/parser.rs", 'alt((tag("&&"), tag_no_case("and")))', 'alt((tag("&&"), tag("and")))', ["C09"])
-m("c09-unary-binds-looser", "milu/src/parser.rs", 'map(nom_tuple((alt((tag("!"), tag("~"), tag("-"))), op_7)),', 'map(nom_tuple((alt((tag("!"), tag("~"), tag("-"))), op_6)),', ["C09"])
-m("c09-cond-left-assoc", "milu/src/parser.rs", "                terminated(op_1,ws(tag(\"?\"))),\n                terminated(op_0,ws(tag(\":\"))),\n                op_0", "                terminated(op_1,ws(tag(\"?\"))),\n                terminated(op_0,ws(tag(\":\"))),\n                op_1", ["C09"])
+m("c09-unary-binds-looser", "milu/src/parser.rs", "                let _guard = NestingGuard::enter(i)?;\n                op_7(i)\n            })),\n            |(op,p1)|parse1(op, p1)", "                let _guard = NestingGuard::enter(i)?;\n                op_5(i)\n            })),\n            |(op,p1)|parse1(op, p1)", ["C09"])
+m("c09-cond-left-assoc", "milu/src/parser.rs", "                preceded(ws(tag(\"?\")),op_0),\n                preceded(ws(tag(\":\")),op_0),", "                preceded(ws(tag(\"?\")),op_0),\n                preceded(ws(tag(\":\")),op_1),", ["C09"])
 m("c09-mod-is-div", "milu/src/parser.rs", '"%" => Mod::make_call(p1, p2).into(),', '"%" => Divide::make_call(p1, p2).into(),', ["C09"])
 
 # ---- C08
@@ -114,7 +114,7 @@ m("c13-double-timeout", "src/context.rs", "        Duration::from_secs(self.prop
 
 # ---- C14
 m("c14-handshake-holds-lock", "src/common/h11c.rs", "    let mut socket = ctx.write().await.take_client_stream();\n    let request = HttpRequest::read_from(&mut socket).await;\n    let mut ctx_lock = ctx.write().await;\n    ctx_lock.set_client_stream(socket);\n    let request = request?;\n    let socket = ctx_lock.borrow_client_stream().unwrap();", "    let mut ctx_lock = ctx.write().await;\n    let socket = ctx_lock.borrow_client_stream().unwrap();\n    let request = HttpRequest::read_from(socket).await?;", ["C14"])
-m("c14-socks-handshake-under-registry-lock", "src/listeners/socks.rs", "        let request = SocksRequest::read_from(&mut socket, auth_server).await?;", "        let request = {\n            let _guard = state.contexts.alive.lock().await;\n            SocksRequest::read_from(&mut socket, auth_server).await?\n        };", ["C14"])
+m("c14-socks-handshake-under-registry-lock", "src/listeners/socks.rs", "        let request = match SocksRequest::read_from(&mut socket, auth_server).await {\n", "        let guard = state.contexts.alive.lock().await;\n        let read = SocksRequest::read_from(&mut socket, auth_server).await;\n        drop(guard);\n        let request = match read {\n", ["C14"])
 m("c14-accept-inline-handshake", "src/listeners/http.rs", "                    tokio::spawn(async move {\n                        let res = match this.create_context(state, source, socket).await {", "                    let _inline = (async move {\n                        let res = match this.create_context(state, source, socket).await {", [])
 # ---- C15
 m("c14-quic-handshake-in-accept-loop", "src/listeners/quic.rs", "            tokio::spawn(async move {\n                match conn.await.context(\"connection\") {\n                    Ok(conn) => this.client_thread(conn, source, state, queue).await,\n                    Err(e) => {\n                        warn!(\"{}, Accept error: {}: cause: {:?}\", this.name, e, e.cause);\n                    }\n                }\n            });\n", "            match conn.await.context(\"connection\") {\n                Ok(conn) => {\n                    tokio::spawn(this.client_thread(conn, source, state, queue));\n                }\n                Err(e) => {\n                    warn!(\"{}, Accept error: {}: cause: {:?}\", this.name, e, e.cause);\n                }\n            }\n", ["C14"])
